@@ -1,0 +1,68 @@
+// Copyright 2020-2025 Buf Technologies, Inc.
+//
+// Licensed under the Apache License, Version 2.0 (the "License");
+// you may not use this file except in compliance with the License.
+// You may obtain a copy of the License at
+//
+//      http://www.apache.org/licenses/LICENSE-2.0
+//
+// Unless required by applicable law or agreed to in writing, software
+// distributed under the License is distributed on an "AS IS" BASIS,
+// WITHOUT WARRANTIES OR CONDITIONS OF ANY KIND, either express or implied.
+// See the License for the specific language governing permissions and
+// limitations under the License.
+
+//go:build verif
+
+package bufanalysis
+
+// Contracts for the gocv verifier (see /verif/DESIGN.md). Comment-only.
+// Format oracles textLine / msvsLine / ghaLine: /verif/specs/C20.spec.
+//
+//@ trusted pure func (FileAnnotation) FileInfo() (r)
+//@ trusted pure func (FileAnnotation) StartLine() (r)
+//@ trusted pure func (FileAnnotation) StartColumn() (r)
+//@ trusted pure func (FileAnnotation) EndLine() (r)
+//@ trusted pure func (FileAnnotation) EndColumn() (r)
+//@ trusted pure func (FileAnnotation) Type() (r)
+//@ trusted pure func (FileAnnotation) Message() (r)
+//@ trusted pure func (FileAnnotation) PluginName() (r)
+//@ trusted pure func (FileInfo) ExternalPath() (r)
+//@ trusted pure func (FileInfo) Path() (r)
+//
+//@ pure func atLeast1(i) (r)
+//@   property C20
+//@   ensures r == max(1, i)
+//
+// Every format renders the same fields of the same annotation.
+//@ func printFileAnnotationAsMSVS(buffer, f) (err)
+//@   property C20
+//@   modifies ghost.buf
+//@   reveal msvsLine, pathOf, msgOf, pluginSuffix
+//@   ensures err == nil
+//@   ensures format: f != nil ==> ghost.buf == put(old(ghost.buf), buffer, old(ghost.buf)[buffer] + msvsLine(f))
+//@   ensures f == nil ==> ghost.buf == old(ghost.buf)
+//
+//@ func printFileAnnotationAsGithubActions(buffer, f) (err)
+//@   property C20
+//@   modifies ghost.buf
+//@   reveal ghaLine, ghaPos, pathOf, pluginSuffix
+//@   ensures err == nil
+//@   ensures format: f != nil ==> ghost.buf == put(old(ghost.buf), buffer, old(ghost.buf)[buffer] + ghaLine(f))
+//@   ensures f == nil ==> ghost.buf == old(ghost.buf)
+//
+//@ func newExternalFileAnnotation(f) (r)
+//@   property C20
+//@   ensures json-fields: r.Path == ite(f.FileInfo() != nil, f.FileInfo().ExternalPath(), "") && r.StartLine == max(1, f.StartLine()) && r.StartColumn == max(1, f.StartColumn()) && r.EndLine == max(1, f.EndLine()) && r.EndColumn == max(1, f.EndColumn()) && r.Type == f.Type() && r.Message == f.Message() && r.Plugin == f.PluginName()
+//
+//@ trusted func PrintFileAnnotationSet(writer, fileAnnotationSet, formatString) (err)
+//@   modifies ghost.annotPrinted, ghost.fail, heap
+//@   ensures ghost.annotPrinted
+//@   ensures ghost.fail == (old(ghost.fail) || err != nil)
+//
+// The text format, over the fields of the concrete annotation.
+//@ func (f *fileAnnotation) String() (r)
+//@   property C20
+//@   modifies ghost.buf
+//@   ensures text-format: f != nil ==> r == ite(f.fileInfo != nil, f.fileInfo.ExternalPath(), "<input>") + ":" + decimal(max(1, f.startLine)) + ":" + decimal(max(1, f.startColumn)) + ":" + ite(f.message != "", f.message, ite(f.typeString != "", f.typeString, "FAILURE")) + ite(f.pluginName != "", " (" + f.pluginName + ")", "")
+//@   ensures f == nil ==> r == ""
